@@ -407,6 +407,30 @@ func c20Extremes(rc *RunCtx) {
 				}
 			}
 		}
+		// registry values of unusual length that only a genesis file can hold, met by otherwise valid traffic
+		if g, err := StdEngine(rc, false, false, func(gs *ct.GenesisState, cfg *chain.Config) {
+			gs.TokenMessengerList = nil
+			for i, l := range []int{0, 1, 20, 31, 33, 64} {
+				d := uint32(i)
+				gs.TokenMessengerList = append(gs.TokenMessengerList, ct.RemoteTokenMessenger{DomainId: d, Address: append(Structured32(byte(0x40+i)), Structured32(byte(0x50+i))...)[:l]})
+				gs.TokenPairList = append(gs.TokenPairList, ct.TokenPair{RemoteDomain: d, RemoteToken: Token(5), LocalToken: "uusdc"})
+			}
+		}); err == nil {
+			g.LightQueries = true
+			for i := 0; i < 6; i++ {
+				d := uint32(i)
+				for _, snd := range [][]byte{Structured32(byte(0x40 + i)), ref.Pad32(g.M.Messengers[d]), make([]byte, 32)} {
+					nonce++
+					in := &InMsg{Version: 0, Src: d, Dst: 4, Nonce: nonce, Sender: snd, Recipient: modulePadded, Caller: make([]byte, 32),
+						Body: BurnBody(0, Token(5), ref.Pad32(AcctBytes(1)), big.NewInt(9), Structured32(0x33))}
+					raw := in.Bytes()
+					g.Exec(Tx{Msgs: msgs1(&ct.MsgReceiveMessage{From: Acct(UserIx), Message: raw, Attestation: g.Attest(raw, 0)}), Note: "C20 extremes: inbound from a domain whose messenger has an unusual length"})
+					rc.Cov.Cell("C20_extremes", "inbound-x-odd-messenger")
+				}
+				g.Exec(Tx{Msgs: msgs1(&ct.MsgDepositForBurn{From: from, Amount: mkInt(big.NewInt(1)), DestinationDomain: d, MintRecipient: Structured32(9), BurnToken: g.MintDenom()}), Note: "C20 extremes: deposit to a domain whose messenger has an unusual length"})
+				g.Exec(Tx{Msgs: msgs1(&ct.MsgRemoveRemoteTokenMessenger{From: g.M.Owner, DomainId: d}), Note: "C20 extremes: remove a messenger of unusual length"})
+			}
+		}
 		for _, sz := range []uint64{0, 1, 116, 131, 132, 133, 8000, 1 << 31, 1 << 32, 1<<63 - 1, 1 << 63, ^uint64(0)} {
 			e.Exec(Tx{Msgs: msgs1(&ct.MsgUpdateMaxMessageBodySize{From: e.M.Owner, MessageSize: sz}), Note: "C20 extremes: max body size"})
 			for _, bl := range []int{0, 1, 116, 131, 132, 133, 7999, 8000, 8001, 70000} {
